@@ -441,11 +441,8 @@ def run(report, p):
             return False
         for h_, n_ in sites_:
             gh = cfg_of(h_)
-            st_ = n_
-            while st_ is not None and not isinstance(st_, ast.stmt):
-                st_ = parent(st_)
             ok_ = False
-            for t_, l_ in gh.necessary_branches(gh.node_for(st_)):
+            for t_, l_ in gh.necessary_branches(gh.node_for(n_)):
                 for at_, l2 in _atomic_deps(t_.ast, l_):
                     if l2 == "T" and at_.split(".")[-1] in guards_ and norm(n_.value) == at_.rsplit(".", 1)[0]:
                         ok_ = True
@@ -507,11 +504,8 @@ def run(report, p):
                     if any(_is_guard(a_, l_) for a_, l_ in _atomic_deps(up.test, "T")):
                         guarded = True
                 x, up = up, parent(up)
-            st = n
-            while st is not None and not isinstance(st, ast.stmt):
-                st = parent(st)
             try:
-                node_ = gm.node_for(st) if st is not None else None
+                node_ = gm.node_for(n)
             except Exception:
                 node_ = None
             if node_ is not None:
